@@ -434,13 +434,15 @@ REGISTRY["C19"] = {
                    "integrity on the re-parsed model; layout: exactly one shape per (top-level) flow node and one edge per sequence flow, finite coordinates, "
                    "first/last waypoint on the boundary of the source/target shape, and no two shapes intersect when columnGap >= max width, rowGap >= max "
                    "height, processGap >= 0; every fourth case the executable process is run: requests = the added activities once each in insertion order "
-                   "(inner tasks of sub-processes in place), then completion. TestC19LayoutBranching: generated block-structured programs (forks, joins, loops with backward flows, early ends, sub-processes) are parsed, handed to DefinitionBuilder.AddProcess and laid out with default and grid configurations; the geometric oracle (shape / edge counts, finite coordinates, edge ends on the boundaries of their shapes, no overlap when the gaps are at least the node sizes) applies unchanged."),
+                   "(inner tasks of sub-processes in place), then completion. TestC19LayoutBranching: generated block-structured programs (forks, joins, loops with backward flows, early ends, sub-processes) are parsed, handed to DefinitionBuilder.AddProcess and laid out with default and grid configurations; the geometric oracle (shape / edge counts, finite coordinates, edge ends on the boundaries of their shapes, no overlap when the gaps are at least the node sizes) applies unchanged. "
+                   "TestC19Concurrent: the 2..8 processes of one document are built at the same moment, each by a builder of its own in a goroutine of its own (1..12 activities with builder-drawn ids), 40 documents per case: ids unique, flows intact."),
     "level_note": "Trusted: the geometric predicates in props/c19, encoding/xml, the engine driver. Shapes are required for the top-level flow nodes of each process (inner nodes of sub-processes are not laid out by the builder).",
     "technique": "rapid property test over generated build sequences and layout configurations with structural, geometric, round-trip and execution oracles",
     "rule": ("Distinct = descriptor (build sequence, layout configuration). Non-trivial = >=2 activities of >=2 different types, or >=2 processes, or a non-default layout."),
     "tests": [
         {"name": "TestC19Builder", "checks": {"quick": 250, "thorough": 20000}, "shards": {"quick": 12, "thorough": 16}},
         {"name": "TestC19LayoutBranching", "checks": {"quick": 300, "thorough": 20000}, "shards": {"quick": 4, "thorough": 16}},
+        {"name": "TestC19Concurrent", "checks": {"quick": 60, "thorough": 2000}, "shards": {"quick": 2, "thorough": 4}},
     ],
 }
 
